@@ -20,6 +20,14 @@ def run(tier, seed):
     v.add_report(r1, "valve behaviours")
     reps = [r1]
     reps += more(tier, seed, w, v, lay, tp, mc)
+    # the retry contract for every retry count: Exchange refines RetryInd (TLC, r = 0..3); RetryInd's inductive invariant and
+    # the safety properties it implies hold for an arbitrary natural R (Apalache; thorough tier)
+    for r in range(4):
+        mc.append(tlc_mc("MC_ExchangeRef.tla", f"MC_ExchangeRef_{r}.cfg", workers=2, name=f"c10_ref{r}", allow_never=("RecvChal",)))
+    if not quick:
+        mc.append(apalache_check("RetryInd.tla", "Init", "IndInv", 0))
+        mc.append(apalache_check("RetryInd.tla", "IndInit", "IndInv", 1))
+        mc.append(apalache_check("RetryInd.tla", "IndInit", "Safety", 0))
     rt, validated, ts = valve_trace(PID, tier, seed, w, v, lay, tp)
     reps.append(rt)
     mc.append(ts)
